@@ -77,6 +77,9 @@ def chain_family():
     rules = {
         "objarr-plus-obj": lambda d: [P(d, "IItem", "items", 4), P(d, "IItem", "owner")],
         "two-objarr": lambda d: [P(d, "IItem", "xs", 2), P(d, "interface", "ys", 3)],
+        "two-objarr-1": lambda d: [P(d, "IItem", "xs", 2), P(d, "IItem", "ys", 1)],
+        "two-objarr-1b": lambda d: [P(d, "IItem", "xs", 1), P(d, "uint32", "mid"), P(d, "IItem", "ys", 1)],
+        "objarr1-plus-obj": lambda d: [P(d, "IItem", "items", 1), P(d, "IItem", "owner")],
         "unbounded-objarr": lambda d: [P(d, "IItem", "xs", "unbounded")],
         "bounded-data-array": lambda d: [P(d, "uint32", "xs", 4)],
         "objstruct-array": lambda d: [P(d, "ZHold", "hs", "unbounded")],
@@ -96,6 +99,7 @@ def chain_family():
                          {"path": "root.idl", "nodes": [item, hold, lv[0]]}]
                 case = {"id": f"C09-chain-{rule}-{level}-{d}", "files": files, "main": "main.idl", "incdirs": []}
                 where = "main" if level == 2 else "included"
+                rule = {"two-objarr-1": "two-objarr", "two-objarr-1b": "two-objarr", "objarr1-plus-obj": "objarr-plus-obj"}.get(rule, rule)
                 out.append((case, {"rule": rule, "where": where, "iface": lv[level]["name"], "in_main_chain": True, "dir": d,
                                    "level": level, "small": False, "family": "chain"}))
     # duplicates across levels: a method / error of the leaf repeats a name of the root
@@ -235,7 +239,7 @@ def run_c10(ctx, prop):
     gate = C.lean_gate(prop, ctx.tier)
     ctx.setup()
     n = {"quick": 45, "thorough": 500}[ctx.tier]
-    opts = gen.Opts(max_files=3, max_ifaces=4, max_methods=4, max_params=6, max_structs=4,
+    opts = gen.Opts(max_files=4, max_ifaces=4, max_methods=4, max_params=6, max_structs=4,
                     small_obj_structs=True, mix_inarr_outobj=True, pad_bundles=True)
     oracle_fail, disagree, samples = [], [], []
     hist = {"variants": 0, "java_skipped": 0}
@@ -250,6 +254,21 @@ def run_c10(ctx, prop):
         nodes = {"only": [iface], "iface-first": [iface] + extra, "iface-last": extra + [iface]}[order]
         return {"id": f"C10-named-{fname}-{order}", "files": [{"path": fname, "nodes": nodes}], "main": fname, "incdirs": []}
     fixed += [_named(fn, o) for fn in ("IClock.idl", "iclock.idl", "clock.idl") for o in ("only", "iface-first", "iface-last")]
+    # a file reached through an earlier include is included again, in every position of the
+    # include list (diamond onto a non-leaf file, followed / preceded by further includes)
+    import itertools
+    def _st(nm_, dep=None):
+        return {"k": "struct", "name": nm_, "fields": ([{"type": dep, "count": 1, "name": "d"}] if dep else []) + [{"type": "uint64", "count": 1, "name": "v"}]}
+    for k_, order in enumerate(itertools.permutations(["a.idl", "c.idl", "d.idl"])):
+        files_ = [{"path": "main.idl", "nodes": [{"k": "include", "path": x} for x in order] + [
+                      {"k": "interface", "name": "IUseAll", "base": None, "members": [
+                          {"k": "method", "name": "use", "optional": False, "doc": None,
+                           "params": [{"dir": "in", "type": "SA", "arr": None, "name": "a"}, {"dir": "in", "type": "SD", "arr": None, "name": "d"}]}]}]},
+                  {"path": "a.idl", "nodes": [{"k": "include", "path": "c.idl"}, _st("SA", "SC")]},
+                  {"path": "c.idl", "nodes": [{"k": "include", "path": "e.idl"}, _st("SC", "SE")]},
+                  {"path": "e.idl", "nodes": [_st("SE")]},
+                  {"path": "d.idl", "nodes": [_st("SD")]}]
+        fixed.append({"id": f"C10-diamond-{k_}", "files": files_, "main": "main.idl", "incdirs": []})
     for i in range(n + len(fixed)):
         base = fixed[i] if i < len(fixed) else gen.gen_case(ctx.rng, opts, cid=f"C10-{ctx.seed}-{i}")
         if i >= len(fixed) and i % 3 == 0:
